@@ -63,27 +63,38 @@ def parse_msg(m):
 def signature(d):
     """Structural key of a failing record, used to match KNOWN_FINDINGS.json.
     class : pointset (a face / 1-cell / node of the arrangement has the wrong membership; dir = missing | extra)
-            | invalid | exception | crash | emptyrule | emptytype | dim | type | area | clip
-    op    : int uni dif sym uu uc dsu cu clip
+            | invalid | exception (+ exc) | crash | emptyrule | emptytype | dim | type | area | clip
     gc    : an input is a GeometryCollection (handled by StructuredCollection in HeuristicOverlay.cpp)
-    nearIncidence (gc = false): a vertex within rounding distance of a segment of the other input / near-collinear overlap"""
+    gc = true                      : + op (int uni dif sym uu dsu cu clip)
+    gc = false, nearIncidence      : a vertex within rounding distance of a segment of the other input / near-collinear overlap
+                                     (arbitrary doubles): the whole family of near-degenerate robustness failures is ONE key
+    gc = false, not nearIncidence  : + op, dir, dims (sorted dimensions of the two operands)"""
     cl = d["clause"]
-    sig = {"op": d["op"], "gc": d.get("gc") == "1"}
+    sig = {"gc": d.get("gc") == "1"}
     if cl in ("face", "edge", "node"):
         sig["class"] = "pointset"
-        sig["dir"] = "extra" if d.get("inR") == "true" else "missing"
     else:
         sig["class"] = cl
     if cl == "exception":
         sig["exc"] = d.get("exc", "?")
+    near = d.get("near") == "1"
     if not sig["gc"]:
-        sig["nearIncidence"] = d.get("near") == "1"
+        sig["nearIncidence"] = near
+    if sig["gc"] or not near or sig["class"] != "pointset":
+        sig["op"] = d["op"]
+        if sig["class"] == "pointset" and not sig["gc"]:
+            sig["dir"] = "extra" if d.get("inR") == "true" else "missing"
+        if not sig["gc"]:
+            try:
+                sig["dims"] = ",".join(str(x) for x in sorted(int(x) for x in d.get("dims", "").split(",")))
+            except ValueError:
+                sig["dims"] = "?"
     return sig
 
 
 def same_kind(d0, d):
     return d["op"] == d0["op"] and d["variant"] == d0["variant"] and signature(d)["class"] == signature(d0)["class"] and \
-        signature(d).get("dir") == signature(d0).get("dir")
+        (d.get("inR") == d0.get("inR")) and d.get("near") == d0.get("near") and d.get("gc") == d0.get("gc")
 
 
 def shrink(exe, a, b, d0, budget=160):
@@ -137,18 +148,46 @@ def run(ctx):
         ctx.violation("harness c03 does not compile against the current tree", {"kind": "tie-broken", "correspondence": "harness/c03.cpp", "log": out[-3000:]}, nofail=True)
         return
     quick = ctx.tier == "quick"
+    known_sigs = [k.get("signature") for k in ctx.known]
     corr = {}
     found_input = False
     seen = []
     shrunk = 0
-    plan = (("overlay-grid", 2400 if quick else 120000), ("overlay-dbl", 1400 if quick else 60000))
+    # ---- (1) CORE tie: the real OverlayNG::isResultOfOp / OverlayUtil::resultDimension / createEmptyResult (exhaustive)
+    #          and OverlayUtil::isEmptyResult (random facts) against the Lean models the theorems are about
+    r = verif.run_stream(exe, "overlay-core", ctx.seed, 40000 if quick else 400000, ctx.work, shards=4, driver_exe=DRV)
+    corr["overlay-core"] = {"cases": r["cases"], "disagreements": len(r["disagreements"]) + r.get("more_disagreements", 0), "distribution": r["stats"]}
+    core_broken = None
+    if r["error"]:
+        ctx.violation("stream overlay-core could not run: " + r["error"], {"kind": "tie-broken", "correspondence": "overlay-core", "detail": r["error"]}, nofail=True)
+    elif r["disagreements"]:
+        idx, case, exp, got = r["disagreements"][0]
+        core_broken = {"kind": "tie-broken", "correspondence": "overlay-core", "case": case, "impl": exp, "model": got,
+                       "note": "R op l0 l1 = OverlayNG::isResultOfOp; D op d0 d1 = OverlayUtil::resultDimension; T d = createEmptyResult type; E op|boxA|boxB = OverlayUtil::isEmptyResult"}
+    # ---- (2) whole-engine correspondence against the exact point-set oracle
+    plan = (("overlay-grid", 4000 if quick else 40000), ("overlay-dbl", 2000 if quick else 24000))
     for stream, n in plan:
-        r = verif.run_stream(exe, stream, ctx.seed, n, ctx.work, shards=8, driver_exe=DRV, timeout=6000)
+        r = verif.run_stream(exe, stream, ctx.seed, n, ctx.work, shards=16, driver_exe=DRV, timeout=6000)
         st = r["stats"]
         corr[stream] = {"cases": r["cases"], "disagreements": len(r["disagreements"]) + r.get("more_disagreements", 0),
                         "records": sum(v for k, v in st.items() if k.startswith("op_")) + sum(v for k, v in st.items() if k.startswith("exception_") and not k.startswith("exception_class")),
                         "distribution": st}
         ctx.cov["samples"] += [{"case": s["case"][:300], "impl": s["impl"], "model": s["model"]} for s in r.get("samples", [])[:1]]
+        # how many results matched exactly / only inside the tolerance band / needed new vertices (sample of shard 0)
+        try:
+            lines = open(os.path.join(ctx.work, "%s.0.cases" % stream)).read().split("\n")[:150]
+            lines = [l for l in lines if l]
+            _, outl = verif.run_driver_lines("overlay-stats", lines, driver_exe=DRV)
+            acc = {}
+            for l in outl:
+                for kv in l.split():
+                    if "=" in kv:
+                        k, v = kv.split("=", 1)
+                        if v.isdigit():
+                            acc[k] = acc.get(k, 0) + int(v)
+            corr[stream]["exactness_sample"] = dict(acc, cases=len(lines))
+        except Exception as ex:
+            corr[stream]["exactness_sample"] = {"error": repr(ex)}
         if r["error"]:
             cur = sorted(glob.glob(os.path.join(ctx.work, stream + ".*.current")))
             crashed = None
@@ -188,9 +227,12 @@ def run(ctx):
                 if sig0 in seen:
                     continue
                 seen.append(sig0)
+                if sig0 in known_sigs:          # recorded defect: no need to shrink, just note that it was seen
+                    ctx.violation("overlay result violates the specification: %s" % d["raw"], {"kind": "failing-input", "A": a, "B": b, "ops": [d["opv"]]}, signature=sig0)
+                    continue
                 sa, sb, sd = a, b, d
-                if shrunk < 14 and d["clause"] != "area":
-                    sa, sb, sd = shrink(exe, a, b, d)
+                if shrunk < (8 if quick else 20) and d["clause"] != "area":
+                    sa, sb, sd = shrink(exe, a, b, d, budget=90 if quick else 300)
                     shrunk += 1
                 sig = signature(sd)
                 if sig != sig0 and sig in seen:
@@ -209,6 +251,9 @@ def run(ctx):
                                "result_wkt": res, "verdict": sd["raw"], "signature": sig}, signature=sig)
         corr[stream]["failure_classes"] = classes
     ctx.cov["support_correspondence"] = corr
+    if core_broken:
+        ctx.violation("a decision function of OverlayNG no longer equals its Lean model (%s: impl %s, model %s)" % (core_broken["case"], core_broken["impl"], core_broken["model"]),
+                      core_broken, nofail=True)
     if not proved:
         lf = getattr(ctx, "lean_failure", None) or {}
         ctx.violation("Lean obligations for C03 no longer check: " + "; ".join(str(i) for i in lf.get("items", [])[:5]),
